@@ -3,7 +3,7 @@
     the extracted inductive types.  No Extract Constant.  *)
 Require Extraction.
 Require Import ExtrOcamlBasic.
-From CV Require Import Model.Qualtrim Model.Align Model.Adapters Model.Kmer Model.Pipeline Model.Paired Model.PipelineRun Model.Parser.
+From CV Require Import Model.Qualtrim Model.Align Model.Adapters Model.Kmer Model.Pipeline Model.Paired Model.PipelineRun Model.Parser Model.Runner Model.RunnerInst.
 Extraction Blacklist List String Int.
 Set Extraction KeepSingleton.
 Extraction "model.ml"
@@ -13,4 +13,5 @@ Extraction "model.ml"
   positions_and_kmers kmers_present match_to_prefiltered prefilter_passes finder_of
   run_cli process_cli best_match match_and_trim revcomp_stage
   make_from_spec mkG
-  prun_cli process_pair_cli mkPO.
+  prun_cli process_pair_cli mkPO
+  validate_trace.
